@@ -17,9 +17,11 @@ Oracles, universally quantified: the sampler (`get_setting`, may depend on the w
 trial results, which pending future the pool completes next, the wall-clock stop decisions, the
 tree mutators of the wrappers and their `contract_stats`.
 
-Not modelled: `times`, the progress bar, `on_trial_error='raise'` aborting the search (only the
-worker-side function `computeScore` models it), NaN scores, the optlib internals, the numeric value
-of the objective (an oracle), the compressed / multi-contraction variants.
+Not modelled here: the progress bar, the optlib internals, the numeric value of the objective (an
+oracle), the compressed / multi-contraction variants.  `times`, `get_trials()`, NaN / -inf scores,
+`on_trial_error='raise'` leaving the search by an exception and the clean-up of finished in-flight
+futures are in the extended transcription `Model/HyperX.lean` with the theorems of `Props/C08X.lean`
+(this file's model is its image under NaN ↦ inf: `C08.xrunLog_erase`).
 -/
 namespace Cotengra.C08
 open Cotengra Cotengra.Hyper
